@@ -459,8 +459,9 @@ func init() {
 				{H: "H_C20_Closer", K: 2, U: 6},
 			},
 			split(Job{H: "H_C20_KeyedListStep", K: 2, U: 5, MapCap: 4, Fixes: uniqCases(), QueryMs: 200000}, 8),
+			split(Job{H: "H_C20_KeyedMapStep", K: 2, U: 5, MapCap: 4, Fixes: []string{"op=0,n=0", "op=0,n=1", "op=0,n=2", "op=1,n=0", "op=1,n=1", "op=1,n=2", "op=2,n=0", "op=2,n=1", "op=2,n=2"}, QueryMs: 200000}, 3),
 		),
-		Bounds:  "ioseek: one inductive step (Seek or Read) from an arbitrary valid state, all of size/position/offset full 64-bit, buffer length 0..8; iosizer: 4 calls (Read/Write symbolic) with arbitrary (n, err), buffers <= 8 bytes; iocloser: all histories of 4 operations over {Read, Write, Close(reader), Close(writer)}; unique.KeyedList: one inductive step from an arbitrary list over 3 keys, 4 operation kinds x 0..3 symbolic values (duplicates allowed), exact and coarse cmp.",
-		Outside: "iosizer counts above 2^32-1 per call (the library drops them; buffers <= 8 bytes here); more than 3 keys; ioproxy and KeyedMap (see DESIGN.md)",
+		Bounds:  "ioseek: one inductive step (Seek or Read) from an arbitrary valid state, all of size/position/offset full 64-bit, buffer length 0..8; iosizer: 4 calls (Read/Write symbolic) with arbitrary (n, err), buffers <= 8 bytes; iocloser: all histories of 4 operations over {Read, Write, Close(reader), Close(writer)}; unique.KeyedList: one inductive step from an arbitrary list over 3 keys, 4 operation kinds x 0..3 symbolic values (duplicates allowed), exact and coarse cmp; unique.KeyedMap: one inductive step, 3 operation kinds x 0..2 symbolic entries.",
+		Outside: "iosizer counts above 2^32-1 per call (the library drops them; buffers <= 8 bytes here); more than 3 keys; ioproxy (see DESIGN.md)",
 	}
 }
